@@ -90,6 +90,7 @@ def run(ctx):
     owner = hk.sslib_key("ed25519", 5)
     viol = 0
     vreqs, expect, meta = [], [], []
+    pending, to_resolve = [], []
     dist = {"honest_accept": 0, "tamper_effective": 0, "tamper_ineffective": 0, "kinds": {}}
     samples = []
     for i in range(n):
@@ -102,7 +103,7 @@ def run(ctx):
         layout_md = ch.sign_layout(layout, owner, dsse=ctx.rng.random() < 0.3)
         rows = [row for r in recs for row in r["sig_rows"]]
         out, vreq = ch.verify_chain(ctx, layout_md, owner, project, linkdir, rows)
-        vreqs.append(("verify", vreq)); expect.append(("accept", out)); meta.append((chain, family, None))
+        vreqs.append(("verify", vreq)); expect.append(["accept", out]); meta.append((chain, family, None))
         # tampered re-runs of the same chain under the same (honest) layout
         for _ in range(2 if not ctx.thorough() else 3):
             tam = gen_tamper(ctx.rng, chain, recs)
@@ -112,23 +113,30 @@ def run(ctx):
                     continue
                 extra = []
                 with ch.fstree.in_dir(tproject):
-                    final_record = ch._record(["."], {"exclude_patterns": None, "base_path": None, "lstrip_paths": None,
-                                                      "normalize_line_endings": False})
+                    final_record = ch._snap({"exclude_patterns": None, "base_path": None, "lstrip_paths": None,
+                                             "normalize_line_endings": False})
             else:
                 trecs, tproject, tlinkdir = ch.record_chain(ctx, chain)
                 extra = tamper_link(ctx.rng, tlinkdir, chain, trecs, tam[1], tam[2])
                 final_record = None
             trows = [row for r in trecs for row in r["sig_rows"]] + extra
             tout, treq = ch.verify_chain(ctx, layout_md, owner, tproject, tlinkdir, trows)
-            eff = effective(chain, trecs, final_record, tam)
             label = tam[3] if tam[0] == "tree" else "link_" + tam[2]
             dist["kinds"][label] = dist["kinds"].get(label, 0) + 1
-            dist["tamper_effective" if eff else "tamper_ineffective"] += 1
-            vreqs.append(("verify", treq)); expect.append(("reject" if eff else "accept", tout))
+            holder = {"final_record": final_record}
+            pending.append((len(expect), chain, trecs, holder, tam))
+            to_resolve.extend(trecs + [holder])
+            vreqs.append(("verify", treq)); expect.append(["?", tout])
             meta.append((chain, family, list(tam)))
-            if len(samples) < 2:
-                samples.append({"tamper": list(tam), "effective": eff, "verdict": tout.get("exc", "accept"),
-                                "steps": [s["name"] for s in chain["steps"]], "family": family})
+    # covered-content comparison from recordings evaluated by the proved recorder model (C10)
+    dist["snapshots"] = ch.resolve_records(core.Model(), to_resolve)
+    for idx, chain, trecs, holder, tam in pending:
+        eff = effective(chain, trecs, holder["final_record"], tam)
+        expect[idx][0] = "reject" if eff else "accept"
+        dist["tamper_effective" if eff else "tamper_ineffective"] += 1
+        if len(samples) < 2:
+            samples.append({"tamper": list(tam), "effective": eff, "verdict": expect[idx][1].get("exc", "accept"),
+                            "steps": [s["name"] for s in chain["steps"]]})
     vans = core.Model().batch(vreqs) if vreqs else []
     nontrivial = set()
     for k, ((want, out), (chain, family, tam), a) in enumerate(zip(expect, meta, vans)):
@@ -156,7 +164,8 @@ def run(ctx):
         "checker_cmd": "coqc Props/C04.v; chains recorded with the real in_toto_run/record tools, one tamper event per re-run, "
                        "real in_toto_verify vs property oracle and vs extracted Verify.verify",
         "trusted_base": core.KERNEL_TB + [
-            "tamper effectiveness is decided from the harness's own before/after recordings (record_artifacts_as_dict, C10)",
+            "whether a tamper changed covered content is decided from scans of the real directories evaluated by the PROVED "
+            "recorder model of C10 (extracted Model/Resolve.v), not by the implementation's recorder",
             "closed chain layouts are derived from the honest run by harness/chain.py: derive_layout (families R and B, DESIGN C04)",
             "extraction + driver"],
         "evaluations": len(vreqs), "distinct_nontrivial": len(nontrivial),
